@@ -1,2 +1,35 @@
-(** C09 -- theorems under construction *)
-From MX Require Import Exec.Model Exec.Spec Exec.Sim Exec.Top.
+(** C09 — the cached flag never changes any result. *)
+From Coq Require Import List ZArith Bool.
+From MX Require Import Exec.Model Exec.Spec Exec.Sim Exec.Cover Exec.Quiet Exec.Edits3 Exec.Results Exec.Top.
+Import ListNotations.
+
+(** PARTIAL.  Proved: (1) switching the flag of any cells at any point of a
+    history keeps the invariant, so afterwards every answer is again the
+    specification value of the current definitions — invalidation reaches
+    every held value computed through an uncached cells (the coverage
+    invariant records the uncached cells as a predecessor of the cached
+    caller); (2) uncached cells hold no values.
+    Not proved: that the specification value itself is independent of the
+    flags (it is, except for the None check that only cached cells perform:
+    recorded finding D33); reference reads (see C02). *)
+Theorem C09_flag_change_keeps_invariant : forall fuel st c b x st',
+  step fuel st (OpSetCached c b) = (x, st') -> x <> OFuel -> Quiet st -> s_reent st = false ->
+  s_reent st' = true \/ Quiet st'.
+Proof. intros. eapply step_quiet; eauto. exact I. Qed.
+Print Assumptions C09_flag_change_keeps_invariant.
+
+Theorem C09_uncached_hold_nothing : forall st i,
+  Quiet st -> has st i -> is_cached st (fst i) = true.
+Proof. intros st i Q. exact (proj2 (proj2 (proj2 (proj2 (graph_matches_cache st Q)))) i). Qed.
+Print Assumptions C09_uncached_hold_nothing.
+
+Theorem C09_histories_with_flag_changes : forall fuel cells refs maxd ops xs st,
+  defs_ok cells -> ops_ok ops ->
+  run fuel (init cells refs maxd) ops = (xs, st) -> no_fuel_out xs -> s_reent st = false ->
+  Quiet st /\
+  (forall i v, lookup_data (s_data st) i = Some v ->
+     mem_item i (s_inputs st) = true \/ exists f, spec_eval f st i = Val v) /\
+  (forall i r st', eval_top fuel st i = (r, st') -> r <> OutOfFuel ->
+     agrees r (fun g => spec_eval g st i)).
+Proof. exact history_correct. Qed.
+Print Assumptions C09_histories_with_flag_changes.
